@@ -422,9 +422,19 @@ class Harness:
         self.before_level()
         self.in_prop = False
         t = batch.get('time')
+        ts_ = batch.get('time_sel')
+        if ts_ is not None:
+            cap = [(i, l) for i, l in meta.captured_lines() if meta.c_locs[l] >= 0]
+            t = float(ts_[3])
+            if cap:
+                i, l = cap[ts_[0] % len(cap)]
+                a, b = meta.range_of(l)
+                ent = [float(x) for x in refmodels.wave_summary(unwrap(sim.c)[a:b, ts_[1] % unwrap(sim.c).shape[1]])['entries'] if x > TMIN]
+                if ent: t = ent[ts_[2] % len(ent)] + float(ts_[3])
+        self.capture_time = t
         if t is None: sim.c_to_s()
         else: sim.c_to_s(time=np.float32(t))
-        out = {'s': np.array(unwrap(sim.s)).copy(), 'abuf': np.array(unwrap(sim.abuf)).copy(), 'inputs': inputs,
+        out = {'time': t, 's': np.array(unwrap(sim.s)).copy(), 'abuf': np.array(unwrap(sim.abuf)).copy(), 'inputs': inputs,
                'produced': self.produced, 'c': unwrap(sim.c).copy()}
         if batch.get('ppo2ppi'):
             sim.s_ppo_to_ppi(time=float(batch.get('ppi_time', 0.0)))
